@@ -219,6 +219,18 @@ def step (c : CS) (l : Line) : CS :=
   | "surface" =>
       let c := { c with cur := { cmds := l.str "cmds" }, curTag := l.str "tag" }
       c
+  | "capstart" =>
+      -- GetCapability(COMMANDS / PP_COMMANDS / AUDIT_COMMANDS) started exactly at a command that is off must not list it
+      ((l.str "list").splitOn ",").foldl (fun c item =>
+        match item.splitOn ":" with
+        | [cap, cc, first] => if cc = first then mism c s!"SPEC[disabled-command-listed] [{l.str "tag"}] GetCapability(cap {cap}) started at the disabled command {cc} lists it" else c
+        | _ => c) (branch c "capstart")
+  | "totals" =>
+      if l.str "tag" = "baseline" then c else
+      let n := (parseList c.cur.capCmds).length
+      let c := branch c "totals"
+      if n > 0 ∧ (l.nat "total" ≠ n ∨ l.nat "library" ≠ n) then
+        mism c s!"SPEC[command-totals] [{l.str "tag"}] TPM_PT_TOTAL_COMMANDS={l.nat "total"} TPM_PT_LIBRARY_COMMANDS={l.nat "library"} but GetCapability(COMMANDS) enumerates {n}" else c
   | "caplist" =>
       let cap := l.nat "cap"
       let s := l.str "list"
